@@ -77,6 +77,21 @@ pub fn any_plain_message() -> Message<'static> {
     }
 }
 
+/// A message of one concrete kind K (0..8) with symbolic parameters.
+pub fn any_message_of_kind<const K: u8>() -> Message<'static> {
+    let a = Address(kani::any());
+    match K {
+        0 => Message::DataChunksSent(ChunkCount(kani::any())),
+        1 => Message::Hello(a),
+        2 => Message::QueryState(a),
+        3 => Message::ReportState(a, any_state()),
+        4 => Message::RequestOperation(a, any_op()),
+        5 => Message::AckOperation(a, any_op()),
+        6 => Message::PixelsComplete(a),
+        _ => Message::Goodbye(a),
+    }
+}
+
 /// Marks a point that must be unreachable (used after calls that are required to panic).
 macro_rules! must_not_return {
     ($what:expr) => {
